@@ -1,6 +1,6 @@
 (* C13 - Counts stay exact under concurrent threads and interleaved tasks.  Statements only. *)
 From Coq Require Import List ZArith Bool.
-From LP Require Import Trace.ZMap Trace.Concrete Trace.Abstract Trace.AbstractFacts Trace.Main Trace.Threads.
+From LP Require Import Trace.ZMap Trace.Concrete Trace.Abstract Trace.AbstractFacts Trace.Main Trace.Threads Trace.ThreadsMain.
 Import ListNotations.
 Open Scope Z_scope.
 
@@ -37,3 +37,23 @@ Theorem C13_hits_exact :
     reported_hits (run codes tick 0 ops) c l
     = executed codes tick ops c l - in_flight codes tick ops c l - dropped codes tick ops c l.
 Proof. exact hits_exact. Qed.
+
+(* THE PROPERTY: registrations first, then the threads' / tasks' work; for any two interleavings of the same
+   per-thread operation sequences that leave nothing in flight and drop nothing, the profiler REPORTS the
+   same hit count for every line - whatever the schedule *)
+Theorem C13_reported_interleave_invariant :
+  forall codes tick regs body body' c l,
+    forallb (fun o => negb (is_G o)) body = true -> forallb (fun o => negb (is_G o)) body' = true ->
+    same_projections body body' ->
+    no_collision codes (regs ++ body) = true -> no_collision codes (regs ++ body') = true ->
+    in_flight codes tick (regs ++ body) c l = 0 -> dropped codes tick (regs ++ body) c l = 0 ->
+    in_flight codes tick (regs ++ body') c l = 0 -> dropped codes tick (regs ++ body') c l = 0 ->
+    reported_hits (run codes tick 0 (regs ++ body)) c l = reported_hits (run codes tick 0 (regs ++ body')) c l.
+Proof. exact reported_interleave_invariant. Qed.
+
+Theorem C13_nonvacuous :
+  reported_hits (run thr_codes 0 0 (thr_regs ++ thr_body1)) 0 2 = 2
+  /\ reported_hits (run thr_codes 0 0 (thr_regs ++ thr_body2)) 0 2 = 2
+  /\ no_collision thr_codes (thr_regs ++ thr_body1) = true
+  /\ in_flight thr_codes 0 (thr_regs ++ thr_body1) 0 2 = 0.
+Proof. exact threads_example_short. Qed.
